@@ -77,6 +77,9 @@ func c10rules() []c10rule {
 		svc("undeclared-build-secret", "    build:\n      context: .\n      secrets: [nope]\n"),
 		svc("depends-on-unknown", "    depends_on: [nope]\n"),
 		svc("depends-on-unknown-long", "    depends_on:\n      nope: {condition: service_started}\n"),
+		// optional, but unknown (not merely disabled): still dangling; one name sorting before, one after the disabled service
+		svc("depends-on-unknown-optional-first", "    depends_on:\n      aaa-nope: {condition: service_started, required: false}\n"),
+		svc("depends-on-unknown-optional-last", "    depends_on:\n      zzz-nope: {condition: service_started, required: false}\n"),
 		svc("network-mode-unknown-service", "    networks: !reset null\n    network_mode: \"service:nope\"\n"),
 		svc("ipc-unknown-service", "    ipc: \"service:nope\"\n"),
 		svc("pid-unknown-service", "    pid: \"service:nope\"\n"),
@@ -91,6 +94,14 @@ func c10rules() []c10rule {
 		{name: "external-volume-labels", frag: "volumes:\n  vol:\n    external: true\n    labels: {l: \"1\"}\n"},
 		{name: "secret-no-source", frag: "secrets:\n  extra: {labels: {l: \"1\"}}\n"},
 		{name: "secret-two-sources", frag: "secrets:\n  extra: {file: ./s, environment: BSEC}\n"},
+		// several sources stay an error whatever else the resource says
+		{name: "secret-two-sources-driver", frag: "secrets:\n  extra: {file: ./s, environment: BSEC, driver: d}\n"},
+		{name: "secret-two-sources-external-true", frag: "secrets:\n  extra: {file: ./s, environment: BSEC, external: true}\n"},
+		{name: "secret-two-sources-external-false", frag: "secrets:\n  extra: {file: ./s, environment: BSEC, external: false}\n"},
+		{name: "secret-two-sources-labels", frag: "secrets:\n  extra: {file: ./s, environment: BSEC, labels: {l: \"1\"}}\n"},
+		{name: "config-two-sources-external-true", frag: "configs:\n  extra: {file: ./s, content: x, external: true}\n"},
+		{name: "config-two-sources-external-false", frag: "configs:\n  extra: {file: ./s, content: x, external: false}\n"},
+		{name: "config-two-sources-labels", frag: "configs:\n  extra: {file: ./s, content: x, labels: {l: \"1\"}}\n"},
 		{name: "config-no-source", frag: "configs:\n  extra: {labels: {l: \"1\"}}\n"},
 		{name: "config-file-environment", frag: "configs:\n  extra: {file: ./s, environment: BSEC}\n"},
 		{name: "config-file-content", frag: "configs:\n  extra: {file: ./s, content: x}\n"},
@@ -112,7 +123,21 @@ func c10rules() []c10rule {
 		ok("container-name-scale-1", "    container_name: fixed\n    scale: 1\n"),
 		ok("optional-dependency-on-disabled", "    depends_on:\n      b: {condition: service_started}\n      opt: {condition: service_started, required: false}\n"),
 	}
-	return rules
+	// every violation next to every consistent boundary case (two later documents): a benign sibling - an optional
+	// dependency on a disabled service, an agreeing pair - must not hide the violation that sits beside it
+	var combos []c10rule
+	for _, v := range rules {
+		if v.valid {
+			continue
+		}
+		for _, o := range rules {
+			if !o.valid {
+				continue
+			}
+			combos = append(combos, c10rule{name: v.name + "+" + o.name, frag: o.frag + "---\n" + v.frag})
+		}
+	}
+	return append(rules, combos...)
 }
 
 // c10consistent is the independent invariant checker over a loaded project.
